@@ -12,6 +12,12 @@ FLOORS = {
               "outlier_cases": 100, "cases[n=1]": 3},
     "thorough": {"distinct_nontrivial": 10000, "segments_checked": 30000},
 }
+ANCHORS = [
+    "skchange.datasets.generate.generate_changing_data",
+    "skchange.datasets.generate.generate_anomalous_data",
+    "skchange.datasets.generate.generate_alternating_data",
+    "skchange.datasets.generate.add_linspace_outliers",
+]
 LEVEL = "exploration"
 RULE = (
     "case = one call of generate_changing_data / generate_anomalous_data / generate_alternating_data "
